@@ -58,7 +58,7 @@ func (ld *Loaded) relVC(rc relCase, useContracts bool) (vc *VC, err error) {
 	for _, cl := range c.Requires {
 		x.assume(x.evalPred(cl.Fn, inst.args, st.h, st, nil, nil).(*Term))
 	}
-	x.pinBoolHyps(st)
+	x.pinBoolHyps(st, inst.args)
 	base := st.h.clone()
 	pc := x.getCPU(st, cpu, "PC").(*Term)
 	ix := x.getCPU(st, cpu, "IX").(*Term)
